@@ -141,3 +141,84 @@ def add_env_types(u):
     u.add_type("src/eval.rs", "Bindings")
     u.add_type("src/env.rs", "StackFrame", rules=ENV_TYPE_RULES)
     u.add_type("src/env.rs", "Stack")
+
+
+# ---- AST types ---------------------------------------------------------------------------
+AST_OPAQUE = """
+#[verifier::external_body] pub struct Pattern { _o: u8 }
+#[verifier::external_body] pub struct LetDestination { _o: u8 }
+#[verifier::external_body] pub struct OrderedF64 { _o: u8 }
+#[verifier::external_body] pub struct ExpressionWithComma { _o: u8 }
+#[verifier::external_body] pub struct DictKeyValue { _o: u8 }
+#[verifier::external_body] pub struct TypeSymbol { _o: u8 }
+#[verifier::external_body] pub struct ParenthesizedArguments { _o: u8 }
+#[verifier::external_body] pub struct ParenthesizedExpression { _o: u8 }
+"""
+AST_OPAQUE_ASSUMPTIONS = {
+    "Pattern": "opaque stand-in for parser::ast::Pattern",
+    "LetDestination": "opaque stand-in for parser::ast::LetDestination",
+    "OrderedF64": "opaque stand-in for ordered_float::OrderedFloat<f64>",
+    "ExpressionWithComma": "opaque stand-in for parser::ast::ExpressionWithComma",
+    "DictKeyValue": "opaque stand-in for parser::ast::DictKeyValue",
+    "TypeSymbol": "opaque stand-in for parser::ast::TypeSymbol",
+    "ParenthesizedArguments": "opaque stand-in for parser::ast::ParenthesizedArguments",
+    "ParenthesizedExpression": "opaque stand-in for parser::ast::ParenthesizedExpression",
+}
+AST_TYPE_RULES = [rw.simple("T1", r"OrderedFloat<f64>", "OrderedF64")]
+
+
+def add_ast_types(u, with_env_opaque=True):
+    """Expression, Expression_, Block, BinaryOperatorKind/Symbol, AssignUpdateKind verbatim
+    (parser/ast.rs); the other AST types they mention are opaque stand-ins."""
+    A = "src/parser/ast.rs"
+    u.raw(AST_OPAQUE, kind="prelude")
+    u.add_type(A, "BinaryOperatorKind")
+    u.add_type(A, "BinaryOperatorSymbol")
+    u.add_type(A, "AssignUpdateKind")
+    u.add_type(A, "Block")
+    u.add_type(A, "Expression_", rules=AST_TYPE_RULES)
+    u.add_type(A, "Expression")
+
+
+ENV_STRUCT_OPAQUE = """
+#[verifier::external_body] pub struct TestInfo { _o: u8 }
+#[verifier::external_body] pub struct TypeDefAndMethods { _o: u8 }
+#[verifier::external_body] pub struct PathBuf { _o: u8 }
+#[verifier::external_body] pub struct IdGenerator { _o: u8 }
+#[verifier::external_body] pub struct Vfs { _o: u8 }
+#[verifier::external_body] pub struct TypeName { _o: u8 }
+#[verifier::external_body] #[verifier::reject_recursive_types(K)] #[verifier::accept_recursive_types(V)]
+pub struct OpaqueMap<K, V> { _o: core::marker::PhantomData<(K, V)> }
+"""
+ENV_STRUCT_ASSUMPTIONS = {
+    "TestInfo": "opaque stand-in", "TypeDefAndMethods": "opaque stand-in", "PathBuf": "opaque stand-in",
+    "IdGenerator": "opaque stand-in", "Vfs": "opaque stand-in", "TypeName": "opaque stand-in",
+    "OpaqueMap": "opaque stand-in for rustc_hash::FxHashMap<K, V>",
+}
+ENV_STRUCT_RULES = [
+    rw.simple("T1", r"FxHashMap<", "OpaqueMap<"),
+    rw.simple("T1", r"Rc<RefCell<NamespaceInfo>>", "NamespaceRef"),
+]
+
+# ENV_OPAQUE without Expression/SyntaxId (for units that extract the real AST)
+ENV_OPAQUE_NOAST = """
+#[verifier::external_body] pub struct EnclosingSymbol { _o: u8 }
+#[verifier::external_body] pub struct TypeHint { _o: u8 }
+#[verifier::external_body] pub struct SyntaxId { _o: u8 }
+#[verifier::external_body] pub struct TypeVarEnv { _o: u8 }
+"""
+
+
+def add_env_full(u):
+    """The evaluator's state types verbatim: BlockState, ExpressionState, Bindings (eval.rs),
+    StackFrame, Stack, Env (env.rs), with the AST (add_ast_types) and opaque stand-ins for
+    every field type these functions do not look into."""
+    u.raw(ENV_OPAQUE_NOAST, kind="prelude")
+    u.raw(ENV_STRUCT_OPAQUE, kind="prelude")
+    add_ast_types(u)
+    u.add_type("src/eval.rs", "BlockState")
+    u.add_type("src/eval.rs", "ExpressionState")
+    u.add_type("src/eval.rs", "Bindings")
+    u.add_type("src/env.rs", "StackFrame", rules=ENV_TYPE_RULES)
+    u.add_type("src/env.rs", "Stack")
+    u.add_type("src/env.rs", "Env", rules=ENV_STRUCT_RULES)
